@@ -16,7 +16,7 @@ Lemma k_vary_cl : beqb K_VARY K_CL = false. Proof. reflexivity. Qed.
 Lemma k_ct_cl : beqb K_CT K_CL = false. Proof. reflexivity. Qed.
 Lemma k_ce_cl : beqb K_CE K_CL = false. Proof. reflexivity. Qed.
 Global Hint Rewrite k_ce_vary k_ct_vary k_cl_vary k_vary_ce k_ct_ce k_cl_ce k_vary_cl k_ct_cl k_ce_cl
-  beqb_refl hlist_hset hmem_hset hlist_hdel hmem_hdel : keys.
+  beqb_refl hlist_hset hmem_hset hlist_hdel hmem_hdel hlist_clear hmem_clear : keys.
 
 Lemma vary_step_cases : forall h, exists v, vary_step h = hset K_VARY v h /\ vary_mentions_ae [v] = true.
 Proof.
@@ -31,82 +31,104 @@ Proof.
   rewrite (hmem_false_hlist _ _ E). reflexivity.
 Qed.
 
-Lemma hh1_ct : forall prog fin, hlist K_CT (hh1 prog fin) = hlist K_CT (handler_hdrs prog).
+Lemma fh_ct : forall prog fin, hlist K_CT (final_hdrs prog fin) = hlist K_CT (eff_hdrs prog).
 Proof.
-  intros. unfold hh1. destruct (has_flush prog); auto.
-  destruct (hmem K_CL (handler_hdrs prog)); auto. autorewrite with keys. reflexivity.
+  intros. unfold final_hdrs. destruct (has_flush prog || bodiless (status_at prog)); auto.
+  destruct (hmem K_CL (eff_hdrs prog)); auto. autorewrite with keys. reflexivity.
 Qed.
-Lemma hh1_ce : forall prog fin, hlist K_CE (hh1 prog fin) = hlist K_CE (handler_hdrs prog).
+Lemma fh_ce : forall prog fin, hlist K_CE (final_hdrs prog fin) = hlist K_CE (eff_hdrs prog).
 Proof.
-  intros. unfold hh1. destruct (has_flush prog); auto.
-  destruct (hmem K_CL (handler_hdrs prog)); auto. autorewrite with keys. reflexivity.
+  intros. unfold final_hdrs. destruct (has_flush prog || bodiless (status_at prog)); auto.
+  destruct (hmem K_CL (eff_hdrs prog)); auto. autorewrite with keys. reflexivity.
 Qed.
-Lemma hh1_ce_mem : forall prog fin, hmem K_CE (hh1 prog fin) = hmem K_CE (handler_hdrs prog).
+Lemma fh_ce_mem : forall prog fin, hmem K_CE (final_hdrs prog fin) = hmem K_CE (eff_hdrs prog).
 Proof.
-  intros. unfold hh1. destruct (has_flush prog); auto.
-  destruct (hmem K_CL (handler_hdrs prog)); auto. autorewrite with keys. reflexivity.
+  intros. unfold final_hdrs. destruct (has_flush prog || bodiless (status_at prog)); auto.
+  destruct (hmem K_CL (eff_hdrs prog)); auto. autorewrite with keys. reflexivity.
 Qed.
-Lemma hh1_cl_mem : forall prog fin, has_flush prog = false -> hmem K_CL (hh1 prog fin) = true.
+Lemma fh_cl_mem : forall prog fin, has_flush prog = false -> bodiless (status_at prog) = false ->
+  hmem K_CL (final_hdrs prog fin) = true.
 Proof.
-  intros prog fin HF. unfold hh1. rewrite HF.
-  destruct (hmem K_CL (handler_hdrs prog)) eqn:E; auto. autorewrite with keys. reflexivity.
+  intros prog fin HF HB. unfold final_hdrs. rewrite HF, HB. simpl orb. cbv iota.
+  destruct (hmem K_CL (eff_hdrs prog)) eqn:E; auto. autorewrite with keys. reflexivity.
 Qed.
 
-(* the decision in terms of the request, the handler's headers and the program only *)
-Definition expected_gzip (ae : option bytes) (prog : list op) (fin : option bytes) : bool :=
-  mentions_gzip ae
-  && compressible (before_semi (join_comma (hlist K_CT (handler_hdrs prog))))
-  && (has_flush prog || (MIN_LENGTH <=? length (first_chunk prog fin))%nat)
-  && negb (hmem K_CE (handler_hdrs prog)).
-
-Lemma decision_eq : forall e prog fin, decision e prog fin = expected_gzip (accept_enc e) prog fin.
+Lemma decision_eq : forall e prog fin,
+  decision e prog fin = compress e && expected_gzip (accept_enc e) prog fin (hlist K_CT (eff_hdrs prog)).
 Proof.
   intros e prog fin. unfold decision, expected_gzip, gzip_decision, ae_gzip, mentions_gzip.
   rewrite ctype_of_hlist.
-  destruct (vary_step_cases (hh1 prog fin)) as [v [EV _]]. rewrite EV.
-  autorewrite with keys. simpl orb. rewrite hh1_ct, hh1_ce_mem. rewrite negb_involutive.
+  destruct (vary_step_cases (final_hdrs prog fin)) as [v [EV _]]. rewrite EV.
+  autorewrite with keys. rewrite orb_false_l. rewrite fh_ct, fh_ce_mem. rewrite negb_involutive.
   rewrite !andb_assoc. reflexivity.
+Qed.
+
+(* a response that is compressed as a single chunk has a status that may carry a body:
+   finish() removed Content-Type otherwise *)
+Lemma expected_single_not_bodiless : forall ae prog fin,
+  expected_gzip ae prog fin (hlist K_CT (eff_hdrs prog)) = true -> has_flush prog = false ->
+  bodiless (status_at prog) = false.
+Proof.
+  intros ae prog fin H HF. destruct (bodiless (status_at prog)) eqn:EB; auto.
+  unfold expected_gzip, eff_hdrs in H. rewrite HF, EB in H. unfold clear_repr in H.
+  rewrite hlist_clear in H. rewrite beqb_refl in H.
+  change (compressible (before_semi (join_comma []))) with false in H.
+  rewrite andb_false_r in H. simpl in H. discriminate.
+Qed.
+
+Lemma expected_no_ce : forall ae prog fin ct, expected_gzip ae prog fin ct = true ->
+  hmem K_CE (eff_hdrs prog) = false.
+Proof.
+  intros ae prog fin ct H. unfold expected_gzip in H.
+  apply andb_true_iff in H as [H _]. apply andb_true_iff in H as [_ H].
+  apply negb_true_iff in H. exact H.
 Qed.
 
 (* ---------- everything about the response of a GET run ---------- *)
 Lemma run_summary : forall c e, is_head e = false -> forall prog fin,
-  let s := run c e prog fin in
-  let hh := handler_hdrs prog in
+  let hh := eff_hdrs prog in
+  let fh := final_hdrs prog fin in
   let all := writes prog ++ fin_bytes fin in
-  let D := expected_gzip (accept_enc e) prog fin in
-  exists r, outcome_of s = Resp r /\ r_sent r = sent s /\
-    vary_mentions_ae (r_vary r) = true /\
+  let D := compress e && expected_gzip (accept_enc e) prog fin (hlist K_CT hh) in
+  if assertion_fails prog fin then run c e prog fin = None
+  else exists s r, run c e prog fin = Some s /\ outcome_of (Some s) = Resp r /\ r_sent r = sent (core s) /\
+    r_status r = status_at prog /\
     r_ct r = hlist K_CT hh /\
     r_ce r = (if D then [V_GZIP] else hlist K_CE hh) /\
-    r_cl r = (if D then (if has_flush prog then [] else [dec_len (concat (sent s))])
-              else hlist K_CL (hh1 prog fin)) /\
-    (if D then exists hist, concat (sent s) = gz_stream c hist /\ gz_data hist = all
-     else concat (sent s) = all).
+    r_cl r = (if D then (if has_flush prog then [] else [dec_len (concat (sent (core s)))])
+              else hlist K_CL fh) /\
+    (if compress e then vary_mentions_ae (r_vary r) = true else r_vary r = hlist K_VARY fh) /\
+    (if D then exists hist, concat (sent (core s)) = gz_stream c hist /\ gz_data hist = all
+     else concat (sent (core s)) = all).
 Proof.
   intros c e NH prog fin. cbv zeta.
-  pose proof (run_spec c e NH prog fin) as F. unfold Final in F.
-  rewrite decision_eq in F. destruct F as [F1 F2].
-  destruct (vary_step_cases (hh1 prog fin)) as [v [EV MV]].
+  pose proof (run_spec c e NH prog fin) as F.
+  destruct (assertion_fails prog fin). exact F.
+  destruct F as [s [ES F]]. exists s. unfold Final in F.
+  rewrite decision_eq in F. destruct F as [F1 [F0 F2]].
+  destruct (vary_step_cases (final_hdrs prog fin)) as [v [EV MV]].
   unfold outcome_of. rewrite F1.
-  destruct (expected_gzip (accept_enc e) prog fin) eqn:ED.
-  - destruct F2 as [hist [g [o [G1 [G2 [G3 G4]]]]]]. rewrite G4.
-    eexists. split. reflexivity. simpl.
+  destruct (compress e && expected_gzip (accept_enc e) prog fin (hlist K_CT (eff_hdrs prog))) eqn:ED.
+  - apply andb_true_iff in ED as [CP ED]. rewrite CP.
+    destruct F2 as [hist [g [o [G1 [G2 [G3 G4]]]]]]. rewrite G4.
+    eexists. split. exact ES. split. reflexivity. simpl.
     unfold hdr_gz. rewrite EV.
-    assert (HM : hmem K_CL (hset K_CE V_GZIP (hset K_VARY v (hh1 prog fin))) = hmem K_CL (hh1 prog fin))
+    assert (HM : hmem K_CL (hset K_CE V_GZIP (hset K_VARY v (final_hdrs prog fin))) = hmem K_CL (final_hdrs prog fin))
       by (autorewrite with keys; reflexivity).
     rewrite HM.
-    repeat split.
-    + destruct (hmem K_CL (hh1 prog fin)); [destruct (has_flush prog)|]; autorewrite with keys; exact MV.
-    + destruct (hmem K_CL (hh1 prog fin)); [destruct (has_flush prog)|]; autorewrite with keys; apply hh1_ct.
-    + destruct (hmem K_CL (hh1 prog fin)); [destruct (has_flush prog)|]; autorewrite with keys; reflexivity.
+    repeat split; auto.
+    + destruct (hmem K_CL (final_hdrs prog fin)); [destruct (has_flush prog)|]; autorewrite with keys; apply fh_ct.
+    + destruct (hmem K_CL (final_hdrs prog fin)); [destruct (has_flush prog)|]; autorewrite with keys; reflexivity.
     + destruct (has_flush prog) eqn:HF.
-      * destruct (hmem K_CL (hh1 prog fin)) eqn:EM; autorewrite with keys; auto.
+      * destruct (hmem K_CL (final_hdrs prog fin)) eqn:EM; autorewrite with keys; auto.
         apply hmem_false_hlist. exact EM.
-      * rewrite (hh1_cl_mem prog fin HF). autorewrite with keys. reflexivity.
+      * rewrite (fh_cl_mem prog fin HF (expected_single_not_bodiless _ _ _ ED HF)).
+        autorewrite with keys. reflexivity.
+    + destruct (hmem K_CL (final_hdrs prog fin)); [destruct (has_flush prog)|]; autorewrite with keys; exact MV.
     + exists hist. split; auto. unfold gz_stream. fold (g0 c). rewrite G1. fold (o0 c). exact G2.
   - destruct F2 as [G2 G4]. rewrite G4.
-    eexists. split. reflexivity. simpl. rewrite EV. autorewrite with keys.
-    repeat split; auto.
-    + apply hh1_ct.
-    + apply hh1_ce.
+    eexists. split. exact ES. split. reflexivity. simpl. unfold hdr_plain.
+    destruct (compress e).
+    + rewrite EV. autorewrite with keys. repeat split; auto. apply fh_ct. apply fh_ce.
+    + repeat split; auto. apply fh_ct. apply fh_ce.
 Qed.
